@@ -409,7 +409,21 @@ def check_unique(m, rule):
                 a = resolve_addr(f, o)
                 if a.steps[:1] == ('clr',):
                     touched.add(a.root)
-        if touched != {'$0', '$1'}:
+        # ... or member by member through typed temporaries
+        ex = set()
+        for s2 in f.all_insts():
+            if s2.op != 'store':
+                continue
+            a = resolve_addr(f, s2.o[1])
+            v = f.get(strip_bitcasts(f, s2.o[0])) if isinstance(s2.o[0], str) else None
+            if a.steps[:1] == ('clr',) and a.root in ('$0', '$1') and v is not None and v.op == 'load':
+                b = resolve_addr(f, v.o[0])
+                if b.root in ('$0', '$1') and b.root != a.root and b.steps == a.steps and \
+                        ((v.block is s2.block and v.pos < s2.pos) or f.dominates(v, s2)):
+                    ex.add((a.root, a.steps))
+        fields = {st2 for (_, st2) in ex}
+        memberwise = len(fields) >= 2 and all(('$0', st2) in ex and ('$1', st2) in ex for st2 in fields)
+        if touched != {'$0', '$1'} and not memberwise:
             bad.append('the clear function / argument pair does not travel with the pointer')
         if bad:
             rule.violation('cstl_unique_ptr_swap', '; '.join(bad), floc(m, f), {})
